@@ -2,7 +2,7 @@
    "The metadata store answers exactly what authentic, current metadata says."
    [cur] = the code as it is now (after d8b1d2a4, 18964551, fafdf54c, 254349bd, a8da97db, ab8ae013, 7137d601); [v0] = before them. *)
 From Coq Require Import String List Bool ZArith.
-From Verif Require Import Base.Str Base.Py Base.Py2 C11.Model C11.Dec C11.Spec C11.Proofs C11.Lookup C11.Sim C11.Facts C11.Source2.
+From Verif Require Import Base.Str Base.Py Base.Py2 C11.Model C11.Dec C11.Spec C11.Proofs C11.Lookup C11.Sim C11.Facts C11.Source2 C11.Tokens.
 From VerifGen Require Import C11Src2.
 Import ListNotations.
 Open Scope list_scope.
@@ -414,3 +414,36 @@ Print Assumptions c11_source2_reload.
 Theorem c11_source2_signed : forall p sg, src2_signed (enc_parsed p sg) = PBool (payload_signed p sg).
 Proof. exact src2_signed_is_model. Qed.
 Print Assumptions c11_source2_signed.
+
+(* ==== protocolSupportEnumeration as the document writes it (C11/Tokens.v, round 6).  The enumeration is an xs:list:
+   its ITEMS are separated by XML white space.  [spec_x] is the property with every enumeration read as its items
+   ([canon_hist] re-splits each blank-separated piece at tab / line feed / carriage return); the correspondence
+   evaluates [spec_x] on the implementation's answers.  The code splits the (stripped) value at blanks: it conforms
+   on every history whose pieces hold none of these three characters (literal ones never arrive: the XML parser turns
+   them into blanks) ... *)
+Theorem c11_store_conforms_items : forall now h,
+  clean_hist h = true -> spec_x (rinit now) h (run cur (init now) h).
+Proof. exact store_conforms_items. Qed.
+Print Assumptions c11_store_conforms_items.
+
+(* ... and not on all: finding C11-F9 (items separated by &#10;: the SAML 2.0 role is not served) *)
+Theorem c11_items_refuted : exists now h, ~ spec_x (rinit now) h (run cur (init now) h).
+Proof. exact tokens_refuted. Qed.
+Print Assumptions c11_items_refuted.
+
+(* the guard excludes nothing else: on a clean history the items ARE the pieces *)
+Theorem c11_items_clean_same : forall h, clean_hist h = true -> canon_hist h = h.
+Proof. exact canon_hist_clean. Qed.
+Print Assumptions c11_items_clean_same.
+
+(* what "supports SAML 2.0" means on items: some piece, split at tab / LF / CR, holds the name itself *)
+Theorem c11_items_supports : forall r,
+  supports_saml2 (canon_role r) = existsb (fun p => mem NS_SAML2P (split_ws3 p)) (r_protos r).
+Proof. exact canon_supports. Qed.
+Print Assumptions c11_items_supports.
+
+(* the roles of the correspondence cases (Tokens.rp: the attribute value, stripped and split at blanks by Coq) are in
+   the domain of the source tie c11_source2_do_entity_descriptor (Source2.protos_wf) *)
+Theorem c11_case_role_wf : forall kind pse svcs keys acs, protos_wf (rp kind pse svcs keys acs).
+Proof. intros. apply protos_wf_iff. eexists. apply rp_protos. Qed.
+Print Assumptions c11_case_role_wf.
